@@ -304,17 +304,27 @@ theorem handler_matrix (img : Image) : Handler (fun s => execInstr img s .matrix
 
 /-! ### the simulation relation -/
 
-/-- `σ` (source level) and `s` (machine) agree, between two statements of code that runs at top
-level inside the loops whose frames are `stk`, with `un` the values waiting for a `printf`.
+/-- where the code runs: at top level (`none`), or inside a routine call that will return to
+address `ret` with the frames `rest` of the caller left on the stack (`some (ret, rest)`) -/
+abbrev Ctx := Option (Nat × List Frame)
+
+/-- the frames below the loop frames of the current activation -/
+def baseOf (K : Ctx) (loc : Option Dict) : List Frame :=
+  match K, loc with
+  | some (ret, rest), some d => .call d ret :: rest
+  | _, _ => []
+
+/-- `σ` (source level) and `s` (machine) agree, between two statements of code that runs in
+context `K` inside the loops whose frames are `stk`, with `un` the values waiting for a `printf`.
 Everything the source semantics talks about is related by equality; the machine's `result`
 register is scratch (conditions, printed values, arguments pass through it). -/
-structure SimU (stk : List Frame) (un : List Val) (σ : S) (s : State) : Prop where
+structure SimU (K : Ctx) (stk : List Frame) (un : List Val) (σ : S) (s : State) : Prop where
   running : s.status = .running
-  stack : s.stack = stk
+  stack : s.stack = stk ++ baseOf K σ.locals
   loops : LoopsOnly stk
   eval : s.eval = []
   unnamed : s.unnamed = un
-  locals : σ.locals = none
+  locals : K.isSome = σ.locals.isSome
   status : σ.vm.status = .running
   globals : σ.vm.globals = s.globals
   constants : σ.vm.constants = s.constants
@@ -325,11 +335,11 @@ structure SimU (stk : List Frame) (un : List Val) (σ : S) (s : State) : Prop wh
   draws : σ.vm.draws = s.draws
   regs : ∀ r, r ≠ .result → σ.vm.regs r = s.regs r
 
-abbrev Sim (stk : List Frame) (σ : S) (s : State) : Prop := SimU stk [] σ s
+abbrev Sim (K : Ctx) (stk : List Frame) (σ : S) (s : State) : Prop := SimU K stk [] σ s
 
-variable {stk : List Frame} {un : List Val} {σ : S} {s : State}
+variable {K : Ctx} {stk : List Frame} {un : List Val} {σ : S} {s : State}
 
-theorem SimU.view (h : SimU stk un σ s) :
+theorem SimU.view (h : SimU K stk un σ s) :
     σ.vm = View s σ.vm.pc σ.vm.stack σ.vm.eval σ.vm.unnamed (σ.vm.regs .result) := by
   apply State.ext' <;> try rfl
   · funext r
@@ -346,30 +356,48 @@ theorem SimU.view (h : SimU stk un σ s) :
   · exact h.draws
 
 theorem SimU.of_view {σ' : S} {t : State} {pc stk' ev un' rv}
-    (hr : t.status = .running) (hs : t.stack = stk) (hl : LoopsOnly stk) (he : t.eval = [])
-    (hu : t.unnamed = un) (hloc : σ'.locals = none) (hv : σ'.vm = View t pc stk' ev un' rv) :
-    SimU stk un σ' t := by
+    (hr : t.status = .running) (hs : t.stack = stk ++ baseOf K σ'.locals) (hl : LoopsOnly stk)
+    (he : t.eval = []) (hu : t.unnamed = un) (hloc : K.isSome = σ'.locals.isSome)
+    (hv : σ'.vm = View t pc stk' ev un' rv) :
+    SimU K stk un σ' t := by
   refine ⟨hr, hs, hl, he, hu, hloc, ?_, ?_, ?_, ?_, ?_, ?_, ?_, ?_, ?_⟩
   all_goals rw [hv]
   all_goals first | exact hr | rfl | skip
   intro r hne
   simp [View, hne]
 
-theorem SimU.scope (h : SimU stk un σ s) : ScopeAgree σ s :=
-  ⟨h.globals, h.constants, by rw [h.locals, h.stack, activation_only_loops stk h.loops]⟩
+/-- the current activation's dictionary is the source level's `locals` -/
+theorem SimU.activation (h : SimU K stk un σ s) : σ.locals = activation s.stack := by
+  rw [h.stack]
+  have hl := h.locals
+  cases hK : K with
+  | none =>
+    rw [hK] at hl
+    cases hloc : σ.locals with
+    | none => simp only [baseOf, List.append_nil, activation_only_loops stk h.loops]
+    | some d => rw [hloc] at hl; simp at hl
+  | some p =>
+    obtain ⟨ret, rest⟩ := p
+    rw [hK] at hl
+    cases hloc : σ.locals with
+    | none => rw [hloc] at hl; simp at hl
+    | some d => simp only [baseOf, activation_loops stk d ret rest h.loops]
 
-theorem SimU.lookup (h : SimU stk un σ s) (n : String) : σ.lookup n = s.getVariable n :=
+theorem SimU.scope (h : SimU K stk un σ s) : ScopeAgree σ s :=
+  ⟨h.globals, h.constants, h.activation⟩
+
+theorem SimU.lookup (h : SimU K stk un σ s) (n : String) : σ.lookup n = s.getVariable n :=
   h.scope.lookup n
 
 /-- moving the program counter does not disturb the relation -/
-theorem SimU.setPc (h : SimU stk un σ s) (q : Int) : SimU stk un σ { s with pc := q } :=
+theorem SimU.setPc (h : SimU K stk un σ s) (q : Int) : SimU K stk un σ { s with pc := q } :=
   ⟨h.running, h.stack, h.loops, h.eval, h.unnamed, h.locals, h.status, h.globals, h.constants,
     h.lights, h.trace, h.defaultColor, h.matrix, h.draws, h.regs⟩
 
 /-- a handler run on both sides keeps the relation -/
-theorem SimU.device {hd : State → State} (hh : Handler hd) (h : SimU stk un σ s) {σ' : S}
+theorem SimU.device {hd : State → State} (hh : Handler hd) (h : SimU K stk un σ s) {σ' : S}
     (hdev : σ.device hd = (.normal, σ')) (q : Int) :
-    (hd s).status = .running ∧ SimU stk un σ' { hd s with pc := q } := by
+    (hd s).status = .running ∧ SimU K stk un σ' { hd s with pc := q } := by
   have hv := h.view
   have hcomm : hd σ.vm = View (hd s) σ.vm.pc σ.vm.stack σ.vm.eval σ.vm.unnamed (σ.vm.regs .result) := by
     conv => lhs; rw [hv]
@@ -395,7 +423,7 @@ theorem SimU.device {hd : State → State} (hh : Handler hd) (h : SimU stk un σ
     apply SimU.of_view (pc := σ.vm.pc) (stk' := σ.vm.stack) (ev := σ.vm.eval) (un' := σ.vm.unnamed)
       (rv := σ.vm.regs .result)
     · exact hrun
-    · show (hd s).stack = stk
+    · show (hd s).stack = _
       rw [hstack, h.stack]
     · exact h.loops
     · show (hd s).eval = []
@@ -434,10 +462,10 @@ theorem Exec.of_run {img : Image} {s t : State} {P : State → Prop} (k : Nat) (
     (hp : P t) : Exec img s P := ⟨k, by rw [h]; exact hp⟩
 
 /-- the postcondition of a piece of code: control is at `q` and the relation holds -/
-def At (q : Nat) (stk : List Frame) (un : List Val) (σ : S) : State → Prop :=
-  fun t => t.pc = (q : Int) ∧ SimU stk un σ t
+def At (K : Ctx) (q : Nat) (stk : List Frame) (un : List Val) (σ : S) : State → Prop :=
+  fun t => t.pc = (q : Int) ∧ SimU K stk un σ t
 
-variable {img : Image} {stk : List Frame} {un : List Val} {σ : S} {s : State} {pc : Nat}
+variable {img : Image} {K : Ctx} {stk : List Frame} {un : List Val} {σ : S} {s : State} {pc : Nat}
 
 /-- instructions after which the machine advances `pc` itself -/
 def plain : Instr → Bool
@@ -462,9 +490,9 @@ theorem execInstr_moveq (v : Val) (d : Dst) (hd : d ≠ .reg .unitMode) :
 theorem exec_device {hd : State → State} (hh : Handler hd) (i : Instr)
     (hex : ∀ t : State, execInstr img t i = hd t)
     (hplain : plain i = true)
-    (h : SimU stk un σ s) (hpc : s.pc = (pc : Int)) (hi : img.code[pc]? = some i) {σ' : S}
+    (h : SimU K stk un σ s) (hpc : s.pc = (pc : Int)) (hi : img.code[pc]? = some i) {σ' : S}
     (hdev : σ.device hd = (.normal, σ')) :
-    Exec img s (At (pc + 1) stk un σ') := by
+    Exec img s (At K (pc + 1) stk un σ') := by
   obtain ⟨hrun, hsim⟩ := h.device hh hdev ((pc : Int) + 1)
   apply Exec.step h.running
   apply Exec.done
@@ -473,35 +501,35 @@ theorem exec_device {hd : State → State} (hh : Handler hd) (i : Instr)
   rw [this, hpc]
   exact ⟨rfl, hsim⟩
 
-theorem exec_wait (h : SimU stk un σ s) (hpc : s.pc = (pc : Int)) (hi : img.code[pc]? = some .wait)
+theorem exec_wait (h : SimU K stk un σ s) (hpc : s.pc = (pc : Int)) (hi : img.code[pc]? = some .wait)
     {σ' : S} (hdev : (σ.device fun vm => execInstr default vm .wait) = (.normal, σ')) :
-    Exec img s (At (pc + 1) stk un σ') :=
+    Exec img s (At K (pc + 1) stk un σ') :=
   exec_device (handler_wait default) .wait (fun t => by simp only [execInstr]) rfl h hpc hi hdev
 
-theorem exec_matrix (h : SimU stk un σ s) (hpc : s.pc = (pc : Int)) (hi : img.code[pc]? = some .matrix)
+theorem exec_matrix (h : SimU K stk un σ s) (hpc : s.pc = (pc : Int)) (hi : img.code[pc]? = some .matrix)
     {σ' : S} (hdev : (σ.device fun vm => execInstr default vm .matrix) = (.normal, σ')) :
-    Exec img s (At (pc + 1) stk un σ') :=
+    Exec img s (At K (pc + 1) stk un σ') :=
   exec_device (handler_matrix default) .matrix (fun t => by simp only [execInstr]) rfl h hpc hi hdev
 
-theorem exec_color (h : SimU stk un σ s) (hpc : s.pc = (pc : Int)) (hi : img.code[pc]? = some .color)
+theorem exec_color (h : SimU K stk un σ s) (hpc : s.pc = (pc : Int)) (hi : img.code[pc]? = some .color)
     {σ' : S} (hdev : σ.device State.doColor = (.normal, σ')) :
-    Exec img s (At (pc + 1) stk un σ') :=
+    Exec img s (At K (pc + 1) stk un σ') :=
   exec_device handler_doColor .color (fun _ => rfl) rfl h hpc hi hdev
 
-theorem exec_power (h : SimU stk un σ s) (hpc : s.pc = (pc : Int)) (hi : img.code[pc]? = some .power)
+theorem exec_power (h : SimU K stk un σ s) (hpc : s.pc = (pc : Int)) (hi : img.code[pc]? = some .power)
     {σ' : S} (hdev : σ.device State.doPower = (.normal, σ')) :
-    Exec img s (At (pc + 1) stk un σ') :=
+    Exec img s (At K (pc + 1) stk un σ') :=
   exec_device handler_doPower .power (fun _ => rfl) rfl h hpc hi hdev
 
-theorem exec_getColor (h : SimU stk un σ s) (hpc : s.pc = (pc : Int)) (hi : img.code[pc]? = some .getColor)
+theorem exec_getColor (h : SimU K stk un σ s) (hpc : s.pc = (pc : Int)) (hi : img.code[pc]? = some .getColor)
     {σ' : S} (hdev : σ.device State.doGetColor = (.normal, σ')) :
-    Exec img s (At (pc + 1) stk un σ') :=
+    Exec img s (At K (pc + 1) stk un σ') :=
   exec_device handler_doGetColor .getColor (fun _ => rfl) rfl h hpc hi hdev
 
-theorem exec_units (m : UnitMode) (h : SimU stk un σ s) (hpc : s.pc = (pc : Int))
+theorem exec_units (m : UnitMode) (h : SimU K stk un σ s) (hpc : s.pc = (pc : Int))
     (hi : img.code[pc]? = some (.moveq (.mode m) (.reg .unitMode)))
     {σ' : S} (hdev : (σ.device fun vm => vm.switchMode m) = (.normal, σ')) :
-    Exec img s (At (pc + 1) stk un σ') :=
+    Exec img s (At K (pc + 1) stk un σ') :=
   exec_device (handler_switchMode m) _ (fun t => by simp only [execInstr]) rfl h hpc hi hdev
 
 
@@ -622,7 +650,7 @@ theorem evalExpr_congr {e : Expr} (he : Pure e) :
       all_goals (repeat' split at h') <;> simp_all
 
 
-variable {img : Image} {stk : List Frame} {un : List Val} {σ : S} {s : State} {pc : Nat}
+variable {img : Image} {K : Ctx} {stk : List Frame} {un : List Val} {σ : S} {s : State} {pc : Nat}
 
 theorem putVariable_setPc (s : State) (n : String) (v : Val) (q : Int) :
     ({ s with pc := q } : State).putVariable n v = { s.putVariable n v with pc := q } := by
@@ -655,7 +683,7 @@ theorem sameEnv_of_loops (s : State) (hl : LoopsOnly s.stack) : SameEnv { vm := 
 /-- the code of a value position, to any destination but the unit-mode register: it stores
 the source-level value with the machine's one store routine, and nothing else happens -/
 theorem run_genRv (v : Rv) (hv : RvOK v) (d : Dst) (hd : d ≠ .reg .unitMode)
-    (h : SimU stk un σ s) (hpc : s.pc = (pc : Int)) (hc : CodeAt img pc (Gen.genRv v (.to d)))
+    (h : SimU K stk un σ s) (hpc : s.pc = (pc : Int)) (hc : CodeAt img pc (Gen.genRv v (.to d)))
     {f : Nat} {x : Val} {σ' : S} (hev : evalRv f v σ = .ok (x, σ'))
     (hput : (s.put d x).status = .running) :
     σ' = σ ∧ run img (Gen.genRv v (.to d)).length s =
@@ -704,13 +732,14 @@ theorem run_genRv (v : Rv) (hv : RvOK v) (d : Dst) (hd : d ≠ .reg .unitMode)
   | expr e =>
     have he : Pure e := hv
     simp only [evalRv] at hev
-    have hl : LoopsOnly s.stack := by rw [h.stack]; exact h.loops
-    have henv : EnvAgree σ { vm := s } :=
-      ⟨fun n => by rw [h.lookup n, ← (sameEnv_of_loops s hl).1 n], fun r hr => h.regs r hr⟩
-    obtain ⟨rfl, hτ⟩ := evalExpr_congr he f σ σ' { vm := s } x henv hev
-    refine ⟨rfl, ?_⟩
-    have h1 := (C02_same_value_everywhere img e he.callFree d f { vm := s } { vm := s } x s pc
-      h.running hpc hc (sameEnv_of_loops s hl) hτ).1
+    have hsame : SameEnv { vm := s, locals := σ.locals } s :=
+      ⟨fun n => ScopeAgree.lookup (σ := { vm := s, locals := σ.locals }) ⟨rfl, rfl, h.activation⟩ n, rfl⟩
+    have henv : EnvAgree σ { vm := s, locals := σ.locals } :=
+      ⟨fun n => by rw [h.lookup n, ← hsame.1 n], fun r hr => h.regs r hr⟩
+    obtain ⟨hσ', hτ⟩ := evalExpr_congr he f σ σ' { vm := s, locals := σ.locals } x henv hev
+    refine ⟨hσ', ?_⟩
+    have h1 := (C02_same_value_everywhere img e he.callFree d f { vm := s, locals := σ.locals }
+      { vm := s, locals := σ.locals } x s pc h.running hpc hc hsame hτ).1
     rw [h1, put_setPc]
     have hst : ({ s.put d x with pc := (pc : Int) + (Gen.genExpr e).length } : State).status = .running := hput
     rw [if_pos hst]
@@ -720,8 +749,8 @@ theorem run_genRv (v : Rv) (hv : RvOK v) (d : Dst) (hd : d ≠ .reg .unitMode)
 
 /-! ### the relation is kept by the elementary updates -/
 
-theorem SimU.setReg (h : SimU stk un σ s) (r : Reg) (v : Val) :
-    SimU stk un (σ.setReg r v) (s.setReg r v) :=
+theorem SimU.setReg (h : SimU K stk un σ s) (r : Reg) (v : Val) :
+    SimU K stk un (σ.setReg r v) (s.setReg r v) :=
   ⟨h.running, h.stack, h.loops, h.eval, h.unnamed, h.locals, h.status, h.globals, h.constants,
     h.lights, h.trace, h.defaultColor, h.matrix, h.draws, fun r' hr' => by
       simp only [S.setReg, State.setReg]
@@ -729,40 +758,86 @@ theorem SimU.setReg (h : SimU stk un σ s) (r : Reg) (v : Val) :
       · rfl
       · exact h.regs r' hr'⟩
 
-theorem SimU.setResult (h : SimU stk un σ s) (v : Val) : SimU stk un σ (s.setReg .result v) :=
+theorem SimU.setResult (h : SimU K stk un σ s) (v : Val) : SimU K stk un σ (s.setReg .result v) :=
   ⟨h.running, h.stack, h.loops, h.eval, h.unnamed, h.locals, h.status, h.globals, h.constants,
     h.lights, h.trace, h.defaultColor, h.matrix, h.draws, fun r' hr' => by
       simp only [State.setReg, if_neg hr']
       exact h.regs r' hr'⟩
 
-theorem SimU.semSetResult (h : SimU stk un σ s) (v : Val) : SimU stk un (σ.setReg .result v) s :=
+theorem SimU.semSetResult (h : SimU K stk un σ s) (v : Val) : SimU K stk un (σ.setReg .result v) s :=
   ⟨h.running, h.stack, h.loops, h.eval, h.unnamed, h.locals, h.status, h.globals, h.constants,
     h.lights, h.trace, h.defaultColor, h.matrix, h.draws, fun r' hr' => by
       simp only [S.setReg, State.setReg, if_neg hr']
       exact h.regs r' hr'⟩
 
-theorem SimU.emit (h : SimU stk un σ s) (e : Event) : SimU stk un (σ.emit e) (s.emit e) :=
+theorem SimU.emit (h : SimU K stk un σ s) (e : Event) : SimU K stk un (σ.emit e) (s.emit e) :=
   ⟨h.running, h.stack, h.loops, h.eval, h.unnamed, h.locals, h.status, h.globals, h.constants,
     h.lights, by simp only [S.emit, State.emit, h.trace], h.defaultColor, h.matrix, h.draws, h.regs⟩
 
-theorem SimU.assign (h : SimU stk un σ s) (n : String) (v : Val) :
-    SimU stk un (σ.assign n v) (s.putVariable n v) := by
-  have hl : LoopsOnly s.stack := by rw [h.stack]; exact h.loops
-  rw [C03_toplevel_assign s n v hl]
-  have : σ.assign n v = { σ with vm := { σ.vm with globals := σ.vm.globals.put n v } } := by
-    simp only [S.assign, h.locals]
-  rw [this]
-  exact ⟨h.running, h.stack, h.loops, h.eval, h.unnamed, h.locals, h.status,
-    by simp only [h.globals], h.constants, h.lights, h.trace, h.defaultColor, h.matrix, h.draws, h.regs⟩
+theorem SimU.assign (h : SimU K stk un σ s) (n : String) (v : Val) :
+    SimU K stk un (σ.assign n v) (s.putVariable n v) := by
+  have hstack := h.stack
+  have hloc := h.locals
+  cases hK : K with
+  | none =>
+    rw [hK] at hloc hstack
+    have hnone : σ.locals = none := by
+      cases hl : σ.locals with
+      | none => rfl
+      | some d => rw [hl] at hloc; simp at hloc
+    simp only [baseOf, List.append_nil] at hstack
+    have hl : LoopsOnly s.stack := by rw [hstack]; exact h.loops
+    rw [C03_toplevel_assign s n v hl]
+    have : σ.assign n v = { σ with vm := { σ.vm with globals := σ.vm.globals.put n v } } := by
+      simp only [S.assign, hnone]
+    rw [this]
+    exact ⟨h.running, by simpa [baseOf] using hstack, h.loops, h.eval, h.unnamed,
+      by simpa using hloc, h.status,
+      by simp only [h.globals], h.constants, h.lights, h.trace, h.defaultColor, h.matrix, h.draws, h.regs⟩
+  | some p =>
+    obtain ⟨ret, rest⟩ := p
+    rw [hK] at hloc hstack
+    cases hl : σ.locals with
+    | none => rw [hl] at hloc; simp at hloc
+    | some d =>
+      rw [hl] at hstack
+      simp only [baseOf] at hstack
+      by_cases hn : d.has n = true
+      · rw [C03_param_private s stk d ret rest n v h.loops hstack hn]
+        have : σ.assign n v = { σ with locals := some (d.put n v) } := by
+          simp only [S.assign, hl, hn, if_true]
+        rw [this]
+        exact ⟨h.running, rfl, h.loops, h.eval, h.unnamed, rfl, h.status, h.globals, h.constants,
+          h.lights, h.trace, h.defaultColor, h.matrix, h.draws, h.regs⟩
+      · have hn : d.has n = false := by simpa using hn
+        by_cases hg : s.globals.has n = true
+        · rw [C03_global_assign s stk d ret rest n v h.loops hstack hn hg]
+          have : σ.assign n v = { σ with vm := { σ.vm with globals := σ.vm.globals.put n v } } := by
+            simp only [S.assign, hl, hn, h.globals, hg, if_true, Bool.false_eq_true, if_false]
+          rw [this]
+          exact ⟨h.running, by simp only [hl, baseOf]; exact hstack, h.loops, h.eval, h.unnamed,
+            by simp only [hl]; rfl, h.status,
+            by simp only [h.globals], h.constants, h.lights, h.trace, h.defaultColor, h.matrix, h.draws,
+            h.regs⟩
+        · have hg : s.globals.has n = false := by simpa using hg
+          rw [C03_new_name_is_local s stk d ret rest n v h.loops hstack hn hg]
+          have hput : d.put n v = d ++ [(n, v)] := by
+            have : d.any (·.1 == n) = false := hn
+            simp [Dict.put, this]
+          have : σ.assign n v = { σ with locals := some (d ++ [(n, v)]) } := by
+            simp only [S.assign, hl, hn, h.globals, hg, Bool.false_eq_true, if_false, hput]
+          rw [this]
+          exact ⟨h.running, rfl, h.loops, h.eval, h.unnamed, rfl, h.status, h.globals, h.constants,
+            h.lights, h.trace, h.defaultColor, h.matrix, h.draws, h.regs⟩
 
-theorem SimU.constant (h : SimU stk un σ s) (n : String) (v : Val) :
-    SimU stk un { σ with vm := { σ.vm with constants := σ.vm.constants.put n v } }
+theorem SimU.constant (h : SimU K stk un σ s) (n : String) (v : Val) :
+    SimU K stk un { σ with vm := { σ.vm with constants := σ.vm.constants.put n v } }
       { s with constants := s.constants.put n v } :=
   ⟨h.running, h.stack, h.loops, h.eval, h.unnamed, h.locals, h.status, h.globals,
     by simp only [h.constants], h.lights, h.trace, h.defaultColor, h.matrix, h.draws, h.regs⟩
 
-theorem SimU.setUnnamed (h : SimU stk un σ s) (un' : List Val) :
-    SimU stk un' σ { s with unnamed := un' } :=
+theorem SimU.setUnnamed (h : SimU K stk un σ s) (un' : List Val) :
+    SimU K stk un' σ { s with unnamed := un' } :=
   ⟨h.running, h.stack, h.loops, h.eval, rfl, h.locals, h.status, h.globals, h.constants,
     h.lights, h.trace, h.defaultColor, h.matrix, h.draws, h.regs⟩
 
@@ -770,31 +845,31 @@ theorem SimU.setUnnamed (h : SimU stk un σ s) (un' : List Val) :
 
 /-- `r v` (a register setting) -/
 theorem exec_setReg (v : Rv) (hv : RvOK v) (r : Reg) (hr : r ≠ .unitMode)
-    (h : SimU stk un σ s) (hpc : s.pc = (pc : Int))
+    (h : SimU K stk un σ s) (hpc : s.pc = (pc : Int))
     (hc : CodeAt img pc (Gen.genRv v (.to (.reg r))))
     {f : Nat} {x : Val} {σ' : S} (hev : evalRv f v σ = .ok (x, σ')) :
-    σ' = σ ∧ Exec img s (At (pc + (Gen.genRv v (.to (.reg r))).length) stk un (σ.setReg r x)) := by
+    σ' = σ ∧ Exec img s (At K (pc + (Gen.genRv v (.to (.reg r))).length) stk un (σ.setReg r x)) := by
   obtain ⟨rfl, hrun⟩ := run_genRv v hv (.reg r) (by simpa using hr) h hpc hc hev h.running
   exact ⟨rfl, Exec.of_run _ hrun ⟨rfl, (h.setReg r x).setPc _⟩⟩
 
 /-- a value delivered in `result` (condition, printed value, argument): the source-level state
 does not change -/
 theorem exec_toResult (v : Rv) (hv : RvOK v)
-    (h : SimU stk un σ s) (hpc : s.pc = (pc : Int))
+    (h : SimU K stk un σ s) (hpc : s.pc = (pc : Int))
     (hc : CodeAt img pc (Gen.genRv v (.to Gen.result)))
     {f : Nat} {x : Val} {σ' : S} (hev : evalRv f v σ = .ok (x, σ')) :
     σ' = σ ∧ Exec img s (fun t =>
-      At (pc + (Gen.genRv v (.to Gen.result)).length) stk un σ t ∧ t.regs .result = x) := by
+      At K (pc + (Gen.genRv v (.to Gen.result)).length) stk un σ t ∧ t.regs .result = x) := by
   obtain ⟨rfl, hrun⟩ := run_genRv v hv Gen.result (by simp [Gen.result]) h hpc hc hev h.running
   refine ⟨rfl, Exec.of_run _ hrun ⟨⟨rfl, (h.setResult x).setPc _⟩, ?_⟩⟩
   simp [Gen.result, State.put, State.setReg]
 
 /-- `assign n v` -/
 theorem exec_assign (v : Rv) (hv : RvOK v) (n : String)
-    (h : SimU stk un σ s) (hpc : s.pc = (pc : Int))
+    (h : SimU K stk un σ s) (hpc : s.pc = (pc : Int))
     (hc : CodeAt img pc (Gen.genRv v (.to (.var n))))
     {f : Nat} {x : Val} {σ' : S} (hev : evalRv f v σ = .ok (x, σ')) :
-    σ' = σ ∧ Exec img s (At (pc + (Gen.genRv v (.to (.var n))).length) stk un (σ.assign n x)) := by
+    σ' = σ ∧ Exec img s (At K (pc + (Gen.genRv v (.to (.var n))).length) stk un (σ.assign n x)) := by
   have hsim := h.assign n x
   obtain ⟨rfl, hrun⟩ := run_genRv v hv (.var n) (by simp) h hpc hc hev hsim.running
   exact ⟨rfl, Exec.of_run _ hrun ⟨rfl, hsim.setPc _⟩⟩
@@ -804,8 +879,8 @@ theorem exec_assign (v : Rv) (hv : RvOK v) (n : String)
 
 /-- `MOVEQ v r` for a register other than the unit mode -/
 theorem exec_moveqReg (v : Val) (r : Reg) (hr : r ≠ .unitMode)
-    (h : SimU stk un σ s) (hpc : s.pc = (pc : Int)) (hi : img.code[pc]? = some (.moveq v (.reg r))) :
-    Exec img s (At (pc + 1) stk un (σ.setReg r v)) := by
+    (h : SimU K stk un σ s) (hpc : s.pc = (pc : Int)) (hi : img.code[pc]? = some (.moveq v (.reg r))) :
+    Exec img s (At K (pc + 1) stk un (σ.setReg r v)) := by
   apply Exec.step h.running
   apply Exec.done
   rw [step_eq _ (s.setReg r v) h.running hpc hi rfl
@@ -815,9 +890,9 @@ theorem exec_moveqReg (v : Val) (r : Reg) (hr : r ≠ .unitMode)
   rw [hpc]; omega
 
 /-- the name of the light / group / location -/
-theorem exec_genName (n : NameSpec) (h : SimU stk un σ s) (hpc : s.pc = (pc : Int))
+theorem exec_genName (n : NameSpec) (h : SimU K stk un σ s) (hpc : s.pc = (pc : Int))
     (hi : img.code[pc]? = some (Gen.genName n)) :
-    Exec img s (At (pc + 1) stk un
+    Exec img s (At K (pc + 1) stk un
       (match n with
         | .str x => σ.setReg .name (.str x)
         | .var x => σ.setReg .name (σ.lookup x))) := by
@@ -834,9 +909,9 @@ theorem exec_genName (n : NameSpec) (h : SimU stk un σ s) (hpc : s.pc = (pc : I
     rw [hpc]; omega
 
 /-- `MOVE result name` (the `get` statement) -/
-theorem exec_moveResultName (h : SimU stk un σ s) (hpc : s.pc = (pc : Int))
+theorem exec_moveResultName (h : SimU K stk un σ s) (hpc : s.pc = (pc : Int))
     (hi : img.code[pc]? = some (.move (.reg .result) (.reg .name))) :
-    Exec img s (fun t => At (pc + 1) stk un (σ.setReg .name (s.regs .result)) t ∧
+    Exec img s (fun t => At K (pc + 1) stk un (σ.setReg .name (s.regs .result)) t ∧
       t.regs .result = s.regs .result) := by
   apply Exec.step h.running
   apply Exec.done
@@ -847,9 +922,9 @@ theorem exec_moveResultName (h : SimU stk un σ s) (hpc : s.pc = (pc : Int))
     rw [hpc]; omega
   · simp [State.setReg]
 
-theorem exec_endMatrix (h : SimU stk un σ s) (hpc : s.pc = (pc : Int))
+theorem exec_endMatrix (h : SimU K stk un σ s) (hpc : s.pc = (pc : Int))
     (hi : img.code[pc]? = some .endMatrix) :
-    Exec img s (At (pc + 1) stk un σ) := by
+    Exec img s (At K (pc + 1) stk un σ) := by
   apply Exec.step h.running
   apply Exec.done
   have : step img s = { s with pc := s.pc + 1 } := by
@@ -861,9 +936,9 @@ theorem exec_endMatrix (h : SimU stk un σ s) (hpc : s.pc = (pc : Int))
   rw [this, hpc]
   exact ⟨rfl, h.setPc _⟩
 
-theorem exec_constant (n : String) (v : Val) (h : SimU stk un σ s) (hpc : s.pc = (pc : Int))
+theorem exec_constant (n : String) (v : Val) (h : SimU K stk un σ s) (hpc : s.pc = (pc : Int))
     (hi : img.code[pc]? = some (.constant n v)) :
-    Exec img s (At (pc + 1) stk un
+    Exec img s (At K (pc + 1) stk un
       { σ with vm := { σ.vm with constants := σ.vm.constants.put n v } }) := by
   apply Exec.step h.running
   apply Exec.done
@@ -875,12 +950,12 @@ theorem exec_constant (n : String) (v : Val) (h : SimU stk un σ s) (hpc : s.pc 
 
 /-- a conditional or unconditional relative jump -/
 theorem exec_jump (c : JumpCond) (off : Int) (tgt : Nat) (hc : c ≠ .indirect)
-    (h : SimU stk un σ s) (hpc : s.pc = (pc : Int)) (hi : img.code[pc]? = some (.jump c off))
+    (h : SimU K stk un σ s) (hpc : s.pc = (pc : Int)) (hi : img.code[pc]? = some (.jump c off))
     (ht : (pc : Int) + (if (match c with
             | .always => true
             | .ifFalse => !(s.regs .result).truthy
             | _ => (s.regs .result).truthy) then off else 1) = (tgt : Int)) :
-    Exec img s (At tgt stk un σ) := by
+    Exec img s (At K tgt stk un σ) := by
   apply Exec.step h.running
   apply Exec.done
   have : step img s = { s with pc := s.pc + (if (match c with
@@ -898,9 +973,9 @@ theorem exec_jump (c : JumpCond) (off : Int) (tgt : Nat) (hc : c ≠ .indirect)
 /-! ### output -/
 
 /-- `OUT REGISTER result`: the value waits for the `PRINT`/`PRINTF` that follows -/
-theorem exec_outRegister (h : SimU stk un σ s) (hpc : s.pc = (pc : Int))
+theorem exec_outRegister (h : SimU K stk un σ s) (hpc : s.pc = (pc : Int))
     (hi : img.code[pc]? = some (.out .register (.reg .result))) :
-    Exec img s (At (pc + 1) stk (un ++ [s.regs .result]) σ) := by
+    Exec img s (At K (pc + 1) stk (un ++ [s.regs .result]) σ) := by
   apply Exec.step h.running
   apply Exec.done
   rw [step_eq _ { s with unnamed := s.unnamed ++ [s.regs .result] } h.running hpc hi rfl
@@ -913,9 +988,9 @@ theorem exec_outRegister (h : SimU stk un σ s) (hpc : s.pc = (pc : Int))
     exact this
 
 /-- `OUT PRINT`: the waiting value is written -/
-theorem exec_outPrint (x : Val) (a : Src) (h : SimU stk (un ++ [x]) σ s) (hpc : s.pc = (pc : Int))
+theorem exec_outPrint (x : Val) (a : Src) (h : SimU K stk (un ++ [x]) σ s) (hpc : s.pc = (pc : Int))
     (hi : img.code[pc]? = some (.out .print a)) :
-    Exec img s (At (pc + 1) stk un (σ.emit (.out x))) := by
+    Exec img s (At K (pc + 1) stk un (σ.emit (.out x))) := by
   apply Exec.step h.running
   apply Exec.done
   rw [step_eq _ { (s.emit (.out x)) with unnamed := un } h.running hpc hi rfl
@@ -925,9 +1000,9 @@ theorem exec_outPrint (x : Val) (a : Src) (h : SimU stk (un ++ [x]) σ s) (hpc :
     rw [hpc]; omega
   · exact ((h.emit (.out x)).setUnnamed un).setPc _
 
-theorem exec_outPrintEnd (a : Src) (h : SimU stk un σ s) (hpc : s.pc = (pc : Int))
+theorem exec_outPrintEnd (a : Src) (h : SimU K stk un σ s) (hpc : s.pc = (pc : Int))
     (hi : img.code[pc]? = some (.out .printEnd a)) :
-    Exec img s (At (pc + 1) stk un (σ.emit .newline)) := by
+    Exec img s (At K (pc + 1) stk un (σ.emit .newline)) := by
   apply Exec.step h.running
   apply Exec.done
   rw [step_eq _ (s.emit .newline) h.running hpc hi rfl (by simp only [execInstr]) h.running]
@@ -937,11 +1012,11 @@ theorem exec_outPrintEnd (a : Src) (h : SimU stk un σ s) (hpc : s.pc = (pc : In
 
 /-- `PRINTF`: with at least as many positional fields as waiting values, all of them are
 written, and the named fields are looked up as the source says (no field named `result`) -/
-theorem exec_outPrintf (fmt : String) (h : SimU stk un σ s) (hpc : s.pc = (pc : Int))
+theorem exec_outPrintf (fmt : String) (h : SimU K stk un σ s) (hpc : s.pc = (pc : Int))
     (hi : img.code[pc]? = some (.out .printf (.lit (.str fmt))))
     (hcount : un.length ≤ positionalCount (fmt.replace "\\n" "\n").toList)
     (hres : "result" ∉ fieldNames (fmt.replace "\\n" "\n").toList) :
-    Exec img s (At (pc + 1) stk []
+    Exec img s (At K (pc + 1) stk []
       (σ.emit (.outFmt fmt un
         ((fieldNames (fmt.replace "\\n" "\n").toList).map fun n =>
           (n, match σ.lookup n with
@@ -998,10 +1073,10 @@ theorem exec_outPrintf (fmt : String) (h : SimU stk un σ s) (hpc : s.pc = (pc :
 
 /-- the `time` register after `at p and q and …` -/
 theorem exec_timePatterns (rest : List TP.Pat) :
-    ∀ (p0 : TP.Pat) {σ : S} {s : State} {pc : Nat}, SimU stk un σ s → s.pc = (pc : Int) →
+    ∀ (p0 : TP.Pat) {σ : S} {s : State} {pc : Nat}, SimU K stk un σ s → s.pc = (pc : Int) →
       σ.vm.regs .time = .pat p0 →
       CodeAt img pc (rest.map fun q => Instr.timePattern false (.pat q)) →
-      Exec img s (At (pc + rest.length) stk un (σ.setReg .time (.pat (rest.foldl TP.Pat.union p0)))) := by
+      Exec img s (At K (pc + rest.length) stk un (σ.setReg .time (.pat (rest.foldl TP.Pat.union p0)))) := by
   induction rest with
   | nil =>
     intro p0 σ s pc h hpc ht _
